@@ -10,7 +10,7 @@ VERIF = os.path.dirname(os.path.dirname(os.path.abspath(__file__)))
 CHECKS = {
     "C06": ("other",
             "bounded enumeration of tree shapes; per tree one z3 validity query over all flag valuations (guarded-trace equivalence of real simplify_ast output)",
-            "Bounded symbolic checking: for every tree of the enumerated family the real simplify_ast is run and z3 proves input and output guarded traces equal for ALL flag valuations; exceptions are violations. Bounds: all trees <=5 nodes (quick) / <=6 nodes (thorough) over 7 condition choices, plus seeded random larger trees. Not a proof: shapes outside the family are not covered.",
+            "Bounded symbolic checking: for every tree of the enumerated family the real simplify_ast is run and z3 proves input and output guarded traces equal for ALL flag valuations; exceptions are violations. Bounds: all trees <=5 nodes (quick) / <=6 nodes (thorough) over 7 condition choices, plus seeded random larger trees; each tree also with one repeated leaf statement (z3 proves the number of leaves run equal for all valuations). Not a proof: shapes outside the family are not covered.",
             "Trusted: z3, the 60-line guarded-trace walker (reference semantics of Block/IfThen/IfThenElse/Null), leaves do not assign flags.",
             "DESIGN.md section 5 C06"),
 }
@@ -84,7 +84,7 @@ CHECKS.update({
 CHECKS.update({
     "C11": ("fault_enumeration",
             "symbolic crash point: the failing call index k is a z3 integer, `count == k` forks inside the stub, so every reachable call index is explored; real interpreter and real generated class; per failing path z3 validity queries for state and resumption clauses",
-            "Fault enumeration with the crash point as a solver variable: a user function raises at its k-th call (k in 0..7 symbolic) in runs of K=2 steps (thorough 3) followed by m=1 (2) further steps, on curated and seeded random programs with calls in right-hand sides, guards, scalar loops, multi-assignee calls and several phases. Checked per failing path: same exception object; only persistent names left; every persistent variable is its pre-step value or a value the written program assigns in that step; variables whose writers all depend on the failed call unchanged; the resumed stepper behaves like a fresh stepper in that state and phase.",
+            "Fault enumeration with the crash point as a solver variable: a user function raises at its k-th call (k in 0..7 symbolic) in runs of K=2 steps (thorough 3) followed by m=1 (2) further steps, on curated and seeded random programs with calls in right-hand sides, guards, scalar loops, multi-assignee calls and several phases, plus variants with call-computed flags inlined into the statement guards. Checked per failing path: the injected exception reaches the caller (same object); only persistent names left; every persistent variable is its pre-step value or a value the written program assigns in that step; variables whose writers all depend on the failed call unchanged; the resumed stepper behaves like a fresh stepper in that state and phase.",
             "Trusted: z3, symx, RefProgram. One function per call site; no arrays; user functions otherwise pure.",
             "DESIGN.md section 5 C11"),
 })
@@ -108,7 +108,7 @@ CHECKS.update({
 CHECKS.update({
     "C05": ("other",
             "real create_ast_from_phase and real lower_node on enumerated hand-built phases; storage order symbolic (rank-sorted by forking), guard flags symbolic; per leaf a z3 validity query (tree path condition <=> declared guard), order inversions allowed only if z3 proves mutual exclusion",
-            "Bounded symbolic checking: for each enumerated phase (kinds x guards x loop nests x acyclic edges, N<=3 bounded-exhaustive, N=4..5 seeded random) and every storage order, the lowered tree contains exactly the non-Nop statements once, inside exactly their declared loops, under a path condition z3 proves equivalent to the declared guard for all flag valuations, in an order consistent with the transitive dependencies under every valuation; the tree is the same for all storage orders; the generic walker's callbacks are the in-order traversal.",
+            "Bounded symbolic checking: for each enumerated phase (kinds x guards x loop nests x acyclic edges, N<=3 bounded-exhaustive, every guard word on dependency chains of 5-6 (thorough 7) statements, N=4..5 seeded random) and every storage order, the lowered tree contains exactly the non-Nop statements once, inside exactly their declared loops, under a path condition z3 proves equivalent to the declared guard for all flag valuations, in an order consistent with the transitive dependencies under every valuation; the tree is the same for all storage orders; the generic walker's callbacks are the in-order traversal.",
             "Trusted: z3, the independent flattener/serialiser in vf/checks/c05.py. Flags are not assigned inside the phase.",
             "DESIGN.md section 5 C05"),
 })
